@@ -1,6 +1,9 @@
 """Per-property level and explanation strings used in the evidence files."""
-LEVELS = {"C02": "proof", "C03": "proof", "C16": "proof", "C18": "other", "C10": "other"}
+LEVELS = {"C02": "proof", "C03": "proof", "C16": "proof", "C18": "other", "C10": "other", "C11": "proof", "C09": "other", "C19": "other", "C05": "other"}
 EXPLAIN = {
+    "C09": "combinator semantics: every obligation of logical_parse discharged for all inputs (abstract leaves); the construction algebra (combine, operators) is not under contract",
+    "C19": "copy_value / get_default / frame and freshness obligations of the contracted parse functions: discharged; cross-call state not decided",
+    "C05": "field predicates vs documented truth tables and their consistency lemma: discharged; the two field loops are not under contract",
     "C18": "depth clause: every obligation generated from the contracted functions, the chain lemma and the call-site audit is discharged (proof for all inputs); cost clause (polynomial work): not decided by this technique",
     "C10": "error protocol and the contracted callers: every obligation discharged (proof for all states); the clause 'names exactly the failing top-level items' is not decided",
 }
